@@ -454,7 +454,7 @@ class Executor:
             if self.scalar(a) and self.scalar(b):
                 a, b = self.coerce_pair(z3ify(a), z3ify(b))
                 return z3.If(c, a, b)
-            raise Undecided("conditional expression with non-scalar arms that looked scalar")
+            return a if self.decide(st, c) else b          # arms are side-effect free: branch instead of merging
         if self.decide(st, c):
             return self.ev(node.body, st, fr)
         return self.ev(node.orelse, st, fr)
